@@ -112,10 +112,16 @@ def flagIndex (s : ClassSpec) (f : String) : Option Nat :=
   let i := s.flags.idxOf f
   if i < s.flags.length then some i else none
 
+/-- the dirty flag guarding a template cell, identified by its ROLE in the source, not by its spelling (private
+attribute names may change): the flag the getter `t.impl` tests and resets (the translator follows private helpers of
+the class); for a getter that never tests (`always`), the flag the handlers set.  `t.guard` only says whether the
+quantity is cached at all (its string is documentation). -/
 def cellGuardIdx (s : ClassSpec) (t : CellT) : Option Nat :=
   match t.guard with
   | none => none
-  | some f => flagIndex s f
+  | some _ =>
+    if t.always then (s.onParam.sets ++ s.onModel.sets).head?
+    else (s.guards.find? fun g => g.impl == t.impl && g.clears).map (·.flag)
 
 /-- the checks of one template cell against the generated row -/
 def cellOK (s : ClassSpec) (r : ClassReads) (i : Nat) (t : CellT) : Bool :=
@@ -129,12 +135,10 @@ def cellOK (s : ClassSpec) (r : ClassReads) (i : Nat) (t : CellT) : Bool :=
   t.ext.all (fun e => s.registers e.1 e.2 && t.kinds.contains e.2) &&
   -- own cells: earlier ones, whose sensitivities it inherits
   t.own.all (fun o => decide (o.1 < i) && ((r.cells.getD o.1 default).kinds.all fun k => t.kinds.contains k)) &&
-  -- the guard the hand-written template names is the one the AST shows
+  -- a cached quantity has a guard flag the AST shows (tested and reset in its getter)
   (match t.guard with
    | none => true
-   | some f => match flagIndex s f with
-     | none => false
-     | some fi => t.always || s.guards.contains ⟨t.impl, fi, true⟩)
+   | some _ => (cellGuardIdx s t).isSome)
 
 def guardsDistinct : List CellT → Bool
   | [] => true
